@@ -230,7 +230,8 @@ class Loop:
                 idle = [t for t in self.tasks if not t.finished and t.waiting is not None and t.waiting[0] == "idle"]
                 if not idle:
                     raise Deadlock("all tasks blocked: %r" % [(t.name, t.waiting and t.waiting[0]) for t in self.tasks if not t.finished])
-                ready = idle[:1]
+                # several connections wait for input: which client speaks next is the environment's choice
+                ready = idle
             k = 0
             if self.schedule and len(ready) > 1:
                 k = self.schedule.pop(0) % len(ready)
